@@ -37,7 +37,7 @@ PATTERNS = ["[KR]", "[KR](?!P)", "K", "(?<=[KR])(?!P)", "[FWY]", "KP|K"]
 
 def budget(tier):
     if tier == "quick":
-        return {"examples": 2400, "shards": 16, "time_s": 60}
+        return {"examples": 9600, "shards": 16, "time_s": 60}
     return {"examples": 200000, "shards": 16, "time_s": 1500}
 
 
